@@ -590,4 +590,27 @@ Section Deep.
         rewrite bool_decide_eq_false_2 by (intros [? ?]; discriminate). cbn. unfold absf. cbn. now rewrite Hty.
       + rewrite !lookup_insert_ne by congruence. reflexivity.
   Qed.
+  (** ** C10: what was deleted stays deleted across later operations on OTHER paths.
+      [view_step p a b]: going from write-layer state a to b changes what the overlay shows at no path of the
+      caller's namespace but p.  Each of the calls above is such a step for the path it names; along any chain of
+      such steps the view at every path that no step names is constant - in particular a path that shows nothing
+      (deleted, or never there) keeps showing nothing, and its marker-hidden lower-layer bytes stay hidden. *)
+  Definition view_step (s1 : mstate) (p : path) (a b : mstate) : Prop :=
+    forall q, user_path q -> q <> p -> view b s1 q = view a s1 q.
+
+  Inductive view_chain (s1 : mstate) : mstate -> list path -> mstate -> Prop :=
+  | VC_nil a : view_chain s1 a [] a
+  | VC_cons a b c p ps : view_step s1 p a b -> view_chain s1 b ps c -> view_chain s1 a (p :: ps) c.
+
+  Theorem chain_keeps_view (s1 a c : mstate) ps q :
+    view_chain s1 a ps c -> user_path q -> q ∉ ps -> view c s1 q = view a s1 q.
+  Proof.
+    induction 1 as [a|a b c p ps Hstep _ IH]; intros Hq Hnin; [reflexivity|].
+    rewrite IH; [|exact Hq|intros Hin; apply Hnin; now right].
+    apply Hstep; [exact Hq|]. intros ->. apply Hnin. now left.
+  Qed.
+
+  Lemma eq_view_step (s1 : mstate) p a b (x : option node) :
+    (forall q, user_path q -> view b s1 q = if decide (q = p) then x else view a s1 q) -> view_step s1 p a b.
+  Proof. intros H q Hq Hne. rewrite (H q Hq). destruct (decide (q = p)); [contradiction|reflexivity]. Qed.
 End Deep.
